@@ -58,7 +58,7 @@ Proof.
     destruct ng; [apply andb_prop in Hok as [Hok _]; apply N.leb_le in Hok|apply N.ltb_lt in Hok]; lia. }
   pose proof (show_N_parses m Hm) as Hp.
   destruct ng.
-  - rewrite E in *. rewrite Hp. apply andb_prop in Hok as [Hok _]. rewrite Hok. reflexivity.
+  - rewrite E in *. rewrite Hp. apply andb_prop in Hok as [Hok Hnz]. rewrite Hok. apply negb_true_iff in Hnz. rewrite Hnz. reflexivity.
   - rewrite E in *.
     destruct (N.eqb_spec c 45) as [->|_]; [contradiction|]. destruct (N.eqb_spec c 43) as [->|_]; [contradiction|].
     destruct c as [|p]; [|do 6 (try destruct p as [p|p|])]; try contradiction; cbv iota; rewrite Hp, Hok; reflexivity.
